@@ -1259,7 +1259,23 @@ func (g *gen) partialPiece(depth int) {
 // wide literals — for code paths that switch behaviour at a threshold.
 func (g *gen) bigPiece() {
 	g.feat("big")
-	switch g.intn("big", 0, 5) {
+	switch g.intn("big", 0, 7) {
+	case 6, 7: // a slice / array literal with many elements and a trivial body
+		v := g.fresh("e")
+		src := "many"
+		if g.pct("biglit", 50) {
+			var parts []string
+			for i, n := 0, []int{8, 9, 16, 40}[g.intn("bigel", 0, 3)]; i < n; i++ {
+				parts = append(parts, fmt.Sprint(i))
+			}
+			src = "[" + strings.Join(parts, ", ") + "]"
+		}
+		g.frames = 0
+		g.tag("<%=", "for ("+v+") in "+src+" {", "%>")
+		g.cur.write("i")
+		g.tag("<%=", v, "%>")
+		g.cur.write(";")
+		g.tag("<%", "}", "%>")
 	case 0: // many iterations, long output
 		v := g.fresh("e")
 		g.frames = 0
